@@ -51,7 +51,10 @@ Proof.
   rewrite Hb in Hmsg2.
   exists (set_origin (set_cur (set_eop s' false) (e_cur (set_eop s' false))) (e_origin s)).
   split; [|split; [|split; [|split; [|split]]]].
-  - cbn [enc_composite]. destruct Hend as (Hbit & _). rewrite Hbit. cbn [Z.eqb guard bind].
+  - cbn [enc_composite].
+    no_own_keys ltac:(intros p Hp; unfold ms, rms in Hp; rewrite map_map in Hp; apply in_map_iff in Hp as (x & <- & Hx);
+                      apply (proj2 (proj2 (Hg x Hx)))).
+    destruct Hend as (Hbit & _). rewrite Hbit. cbn [Z.eqb guard bind].
     fold kv'. pose proof (known_members ms ms (incl_refl ms)) as Hkm. fold kv' in Hkm. rewrite Hkm. cbn [guard bind].
     unfold enc_go in He. unfold s0 in He. rewrite He. cbn [bind].
     pose proof (keys_none fe (map m_p ms) (set_eop s' false)) as Hkeys. unfold keys_go in Hkeys.
